@@ -1,8 +1,199 @@
 package main
 
-// runSelfTest is filled in by selftest_variants.go; the stub keeps the build green.
+import (
+	"encoding/json"
+	"fmt"
+	"io"
+	"os"
+	"os/exec"
+	"path/filepath"
+	"sort"
+	"strings"
+	"sync"
+)
+
+// Thorough tier: both-ways self-test of the checker for one property (DESIGN 3.5 / 11.5).
+//
+//   breaking variants  = the committed seeded changes (seeded/<id>/patch.diff) whose meta.json says
+//                        this property's rules catch them: the check must exit 1 and name one of the rules;
+//   silent variants    = behaviour-preserving edits (selftest/silent/*.diff): the check must exit 0.
+//
+// Every variant is analysed by a separate process on a scratch copy of the current /repo working
+// tree under $TMPDIR (removed right afterwards, at most 4 at a time). A patch that no longer applies
+// is reported as skipped. The outcome is evidence about the checker; it never changes the exit code.
+
 func runSelfTest(pd *PropDef, repo, out string) []map[string]interface{} {
-	return selfTestImpl(pd, repo, out)
+	type variant struct {
+		name, patch, kind string
+		expect            []string
+	}
+	var vars []variant
+	seedDirs, _ := filepath.Glob(filepath.Join(out, "seeded", "*", "patch.diff"))
+	sort.Strings(seedDirs)
+	for _, p := range seedDirs {
+		dir := filepath.Dir(p)
+		b, err := os.ReadFile(filepath.Join(dir, "meta.json"))
+		if err != nil {
+			continue
+		}
+		var meta struct {
+			DetectedBy map[string][]string `json:"detected_by"`
+		}
+		if json.Unmarshal(b, &meta) != nil {
+			continue
+		}
+		if rules := meta.DetectedBy[pd.ID]; len(rules) > 0 {
+			vars = append(vars, variant{filepath.Base(dir), p, "breaking", rules})
+		}
+	}
+	silent, _ := filepath.Glob(filepath.Join(out, "selftest", "silent", "*.diff"))
+	sort.Strings(silent)
+	for _, p := range silent {
+		vars = append(vars, variant{strings.TrimSuffix(filepath.Base(p), ".diff"), p, "silent", nil})
+	}
+	if len(vars) == 0 {
+		return nil
+	}
+	files, err := repoFiles(repo)
+	if err != nil {
+		fmt.Printf("SELFTEST skipped: cannot list repository files: %v\n", err)
+		return nil
+	}
+	exe, _ := os.Executable()
+	results := make([]map[string]interface{}, len(vars))
+	sem := make(chan struct{}, 4)
+	var wg sync.WaitGroup
+	for i, v := range vars {
+		wg.Add(1)
+		go func(i int, v variant) {
+			defer wg.Done()
+			sem <- struct{}{}
+			defer func() { <-sem }()
+			res := map[string]interface{}{"variant": v.name, "kind": v.kind}
+			if v.expect != nil {
+				res["expected_rules"] = v.expect
+			}
+			dir, err := os.MkdirTemp("", "lungocheck-selftest-")
+			if err != nil {
+				res["outcome"] = "skipped: " + err.Error()
+				results[i] = res
+				return
+			}
+			defer os.RemoveAll(dir)
+			if err := copyFiles(repo, dir, files); err != nil {
+				res["outcome"] = "skipped: copy failed: " + err.Error()
+				results[i] = res
+				return
+			}
+			ap := exec.Command("git", "apply", v.patch)
+			ap.Dir = dir
+			if outb, err := ap.CombinedOutput(); err != nil {
+				res["outcome"] = "skipped: patch no longer applies"
+				_ = outb
+				results[i] = res
+				return
+			}
+			cmd := exec.Command(exe, "-prop", pd.ID, "-tier", "quick", "-repo", dir, "-out", out, "-no-evidence")
+			cmd.Env = append(os.Environ(), "GOFLAGS=-mod=mod", "GOPROXY=off")
+			outb, _ := cmd.CombinedOutput()
+			code := cmd.ProcessState.ExitCode()
+			fired := map[string]bool{}
+			for _, l := range strings.Split(string(outb), "\n") {
+				l = strings.TrimSpace(l)
+				if strings.HasPrefix(l, "[") && (strings.Contains(l, "VIOLATED") || strings.Contains(l, "UNDECIDED")) {
+					fired[strings.Trim(strings.SplitN(l, "]", 2)[0], "[")] = true
+				}
+			}
+			var fl []string
+			for k := range fired {
+				fl = append(fl, k)
+			}
+			sort.Strings(fl)
+			res["exit"] = code
+			res["fired_rules"] = fl
+			switch v.kind {
+			case "breaking":
+				hit := false
+				for _, e := range v.expect {
+					if fired[e] {
+						hit = true
+					}
+				}
+				if code == 1 && hit {
+					res["outcome"] = "ok: fired"
+				} else {
+					res["outcome"] = "MISFIRE: breaking variant not reported by the expected rule"
+				}
+			default:
+				if code == 0 {
+					res["outcome"] = "ok: silent"
+				} else {
+					res["outcome"] = "MISFIRE: alarm on a behaviour-preserving variant"
+				}
+			}
+			results[i] = res
+		}(i, v)
+	}
+	wg.Wait()
+	okN, mis, skip := 0, 0, 0
+	for _, r := range results {
+		o := r["outcome"].(string)
+		switch {
+		case strings.HasPrefix(o, "ok"):
+			okN++
+		case strings.HasPrefix(o, "skipped"):
+			skip++
+		default:
+			mis++
+			fmt.Printf("SELFTEST-MISFIRE property=%s variant=%s kind=%s fired=%v expected=%v\n", pd.ID, r["variant"], r["kind"], r["fired_rules"], r["expected_rules"])
+		}
+	}
+	fmt.Printf("SELFTEST property=%s variants=%d ok=%d misfire=%d skipped=%d (breaking: seeded changes this property's rules must catch; silent: behaviour-preserving edits)\n", pd.ID, len(results), okN, mis, skip)
+	return results
 }
 
-var selfTestImpl = func(pd *PropDef, repo, out string) []map[string]interface{} { return nil }
+func repoFiles(repo string) ([]string, error) {
+	cmd := exec.Command("git", "ls-files", "-co", "--exclude-standard")
+	cmd.Dir = repo
+	b, err := cmd.Output()
+	if err != nil {
+		return nil, err
+	}
+	var out []string
+	for _, l := range strings.Split(string(b), "\n") {
+		if l = strings.TrimSpace(l); l != "" {
+			out = append(out, l)
+		}
+	}
+	return out, nil
+}
+
+func copyFiles(src, dst string, files []string) error {
+	for _, f := range files {
+		s := filepath.Join(src, f)
+		st, err := os.Stat(s)
+		if err != nil || st.IsDir() {
+			continue
+		}
+		d := filepath.Join(dst, f)
+		if err := os.MkdirAll(filepath.Dir(d), 0o755); err != nil {
+			return err
+		}
+		in, err := os.Open(s)
+		if err != nil {
+			return err
+		}
+		outf, err := os.Create(d)
+		if err != nil {
+			in.Close()
+			return err
+		}
+		_, err = io.Copy(outf, in)
+		in.Close()
+		outf.Close()
+		if err != nil {
+			return err
+		}
+	}
+	return nil
+}
